@@ -1209,7 +1209,8 @@ class _iterinfo(object):
                             lnumweeks = 52+(lyearlen +
                                             (lyearweekday-rr._wkst) % 7) % 7//4
                         else:
-                            lnumweeks = 52+(self.yearlen-no1wkst) % 7//4
+                            lnumweeks = ((lyearlen-lno1wkst)//7 +
+                                         (lyearlen-lno1wkst) % 7//4)
                     else:
                         lnumweeks = -1
                     if lnumweeks in rr._byweekno:
